@@ -27,6 +27,7 @@ Denied(c) == O("error", "E:denied:" \o c, <<"L:denied:" \o c>>)  \* error + push
 Err(c)    == O("error", "E:" \o c, <<>>)
 Ok0(c)    == O("ok", "", <<>>)
 Ok1(c)    == O("ok", "", <<"V:" \o c>>)
+Ok2(c)    == O("ok", "", <<"N:changed:" \o c, "N:changed-version:" \o c>>)   \* two notifications to the own session
 
 (* permission list of the user: r a*  (may read a1, nothing else) *)
 Outcome(c) ==
@@ -36,8 +37,9 @@ Outcome(c) ==
     [] c \in {"get", "get_safe"} -> IF ~st.sel THEN NoSel(c) ELSE Ok1(c)
     [] c = "get_other" -> IF ~st.sel THEN NoSel(c) ELSE IF st.user THEN Denied(c) ELSE Ok1(c)
     [] c = "watch" -> IF ~st.sel THEN NoSel(c) ELSE Ok0(c)
+    \* a write to the key this same request watches notifies the request's own session (two lines)
     [] c \in {"set", "setsafe_ok", "remove", "inc_ok"} ->
-          IF ~st.sel THEN NoSel(c) ELSE IF st.user THEN Denied(c) ELSE Ok0(c)
+          IF ~st.sel THEN NoSel(c) ELSE IF st.user THEN Denied(c) ELSE IF st.watch /\ c \in {"set", "setsafe_ok"} THEN Ok2(c) ELSE Ok0(c)
     [] c \in {"setsafe_stale", "inc_nan"} ->
           IF ~st.sel THEN NoSel(c) ELSE IF st.user THEN Denied(c) ELSE Err(c)
     [] c = "keys" -> IF ~st.sel THEN NoSel(c) ELSE Ok1(c)
@@ -49,9 +51,10 @@ After(c) ==
   CASE c = "auth_ok" -> [st EXCEPT !.admin = TRUE]
     [] c = "use_ok" /\ ~st.user -> [st EXCEPT !.sel = TRUE]
     [] c = "use_user" -> [st EXCEPT !.sel = TRUE, !.user = TRUE]
+    [] c = "watch" /\ st.sel -> [st EXCEPT !.watch = TRUE]
     [] OTHER -> st
 
-Init == st = [sel |-> FALSE, admin |-> FALSE, user |-> FALSE] /\ outcomes = <<>> /\ hist = <<>>
+Init == st = [sel |-> FALSE, admin |-> FALSE, user |-> FALSE, watch |-> FALSE] /\ outcomes = <<>> /\ hist = <<>>
 
 Next ==
   /\ Len(hist) < MaxLen
@@ -75,7 +78,7 @@ Residue(os, i, q) ==
   IF i > Len(os) THEN Len(q)
   ELSE LET q2 == q \o os[i].lines IN
        IF Refused(os[i]) THEN Residue(os, i + 1, <<>>)
-       ELSE Residue(os, i + 1, IF q2 = <<>> THEN q2 ELSE Tail(q2))
+       ELSE Residue(os, i + 1, <<>>)
 
 View == <<st, Residue(outcomes, 1, <<>>), IF hist = <<>> THEN "" ELSE hist[Len(hist)]>>
 Emit == PrintT(<<"CASE", ToJson(hist')>>)
